@@ -97,4 +97,30 @@ pub fn mint_position_token_with_metadata_and_remove_authority<'info>(whirlpool: 
         r is Ok ==> minted_one_and_sealed(old(ctx.accounts).position_mint.k, old(ctx.accounts).position_token_account.k), //# C18
 //@ rewrite /emit!\(PositionOpened \{/ => /emit_position_opened(PositionOpened {/
 //@ end
+
+// ------------------------------------------------------------------ position bundles: initialisation
+//@ assume bundle-init shims: mint_position_bundle_token_and_remove_authority / mint_position_bundle_token_with_metadata_and_remove_authority (token + metaplex CPIs) are external stubs recording minted_one_and_sealed; the `position_bundle` seeds slice handed to them is opaque
+use crate::position_rules::{PositionBundle, bundle_open};
+#[verifier::external_body]
+pub fn mint_position_bundle_token_and_remove_authority<'info>(position_bundle: &Account<'info, PositionBundle>, position_bundle_mint: &Account<'info, Mint>, position_bundle_token_account: &Account<'info, TokenAccount>,
+    token_program: &Program<'info, Token>, position_bundle_seeds: &[&[u8]]) -> (r: Result<()>)
+    ensures r is Ok ==> minted_one_and_sealed(position_bundle_mint.k, position_bundle_token_account.k) { unimplemented!() }
+impl PositionBundle {
+//@ fn state/position_bundle.rs initialize in=/^impl PositionBundle \{/ -> r
+    ensures r is Ok, *final(self) == (PositionBundle { position_bundle_mint: position_bundle_mint, ..*old(self) }),
+//@ end
+}
+//@ struct instructions/initialize_position_bundle.rs InitializePositionBundle
+//@ constraints instructions/initialize_position_bundle.rs InitializePositionBundle
+/// C18: a new bundle names its own mint, lives at the address derived from ("position_bundle", that mint), has exactly one bundle token minted with the
+/// mint sealed, and - the account being freshly created and zeroed - no bundled position open
+//@ fn instructions/initialize_position_bundle.rs handler -> r as=initialize_position_bundle_handler canary
+    requires constraints_InitializePositionBundle(old(ctx.accounts)),
+        forall|j: int| 0 <= j < 256 ==> !#[trigger] bundle_open(old(ctx.accounts).position_bundle.data.position_bitmap, j), // `init`: Anchor hands over a zeroed account
+    ensures
+        r is Ok ==> final(ctx.accounts).position_bundle.data.position_bundle_mint == old(ctx.accounts).position_bundle_mint.k && final(ctx.accounts).position_bundle.data.position_bitmap == old(ctx.accounts).position_bundle.data.position_bitmap, //# C18
+        r is Ok ==> old(ctx.accounts).position_bundle.skey() == crate::anchor_shim::pda_of(seq![crate::anchor_shim::Seed::Lit(0x706f736974696f6e5f62756e646c65int), crate::anchor_shim::Seed::Key(old(ctx.accounts).position_bundle_mint.skey())]), //# C18
+        r is Ok ==> minted_one_and_sealed(old(ctx.accounts).position_bundle_mint.k, old(ctx.accounts).position_bundle_token_account.k), //# C18
+//@ rewrite /&\[\s*b"position_bundle"\.as_ref\(\),[^\]]*\[bump\],\s*\]/ => /position_seeds_shim()/
+//@ end
 }
